@@ -14,7 +14,7 @@ LANGSETS = [LANGNAME, LANGNAME, {"A": "English (en)", "B": "English", "Z": "Zulu
 COL = {"label": "label", "hint": "hint", "guidance": "guidance_hint", "cmsg": "constraint_message", "rmsg": "required_message", "noapp": "noAppErrorString", "image": "image", "audio": "audio"}
 # q2's concrete name contains the name of a translatable column (names are free text; they must not be mistaken for column tags)
 Q2NAME = "q2_guidance_hint_x"
-QPATH = {"q1": ["q1"], "q2": ["g", Q2NAME], "g": ["g"], "s1": ["s1"], "s2": ["s2"], "s3": ["s3"]}
+QPATH = {"q1": ["q1"], "q2": ["g", Q2NAME], "g": ["g"], "s1": ["s1"], "s2": ["s2"], "s3": ["s3"], "c1": ["c1"]}
 CHOICES = {"L.1": ("L", 0, "l1"), "L.2": ("L", 1, "l2"), "M.1": ("M", 0, "m1"), "U.1": ("U", 0, "u1")}   # U: a spare list no select reads
 
 
@@ -63,6 +63,7 @@ def build(case, seed=0):
         {"type": "select_multiple L", "name": "s2"},
         {"type": "select_one L", "name": "s4", "label": "S4 randomized", "parameters": "randomize=true"},
         {"type": "select_one M", "name": "s3", "appearance": "search('mfile')"},
+        {"type": "calculate", "name": "c1", "calculation": "1 + 1", "constraint": ". != 7", "required": "yes"},
     ]
     srows = [r for r in srows if r is not None]
     if refs:
@@ -79,7 +80,7 @@ def build(case, seed=0):
     ch = sorted({h for (s, _, _), h in hdrs.items() if s == "choices"})
     rnd.shuffle(sh)
     rnd.shuffle(ch)
-    scols = ["type", "name", "constraint", "required", "appearance", "parameters"] + sh
+    scols = ["type", "name", "constraint", "required", "appearance", "parameters", "calculation"] + sh
     ccols = ["list_name", "name"] + ch
     sheets = [{"name": "survey", "header": scols, "rows": [[r.get(c) for c in scols] for r in srows]},
               {"name": "choices", "header": ccols, "rows": [[r.get(c) for c in ccols] for r in crows]}]
